@@ -151,7 +151,7 @@ class TlcResult:
         for l in self.out.splitlines():
             if l.startswith(pre) and l.endswith('">>'):
                 s = l[len(pre):-3]
-                res.append(s.replace('\\"', '"').replace("\\\\", "\\"))
+                res.append(re.sub(r'\\(.)', r'\1', s))
         return res
 
 
